@@ -13,7 +13,13 @@
 (V) every charstring of every CFF/CFF2 corpus font through the same rewritings.
 Judge: Trace_C12 -- TLC interprets the original and each rewritten token list with T2Sem and
 decides OutputLegal / SamePath / SameWidth / SamePathRegion.  Python only drives the real
-code and converts operands to scaled integers."""
+code and converts operands to scaled integers.
+
+Rejections whose cause is a defect already written up in /verif/findings/C12 are reported under a
+stable root-cause key (root_cause(): the observable signature of that one defect, established by
+observation of the real code -- never a verdict); every other rejection is keyed by
+"<rewriting>:<clause>".  Nothing is excluded: once a defect is fixed the same inputs pass the
+ordinary clauses.  C12_PHASES=func,built,corpus (development aid) restricts a run to some phases."""
 import io
 import json
 import logging
@@ -616,7 +622,8 @@ def font_traces(data, label, rng, want=None, with_subr=True, func_sample=None, p
                 kw["adv"] = adv[gname]
             nl = max(sd["rg"]) if (sd["rg"] and sd2["rg"] and not rname.startswith("cff2-to-cff")) else 0
             outs.append(mk_out(rname, sd2, nl=nl, **kw))
-        traces.append({"in": sd, "outs": outs, "meta": {"kind": "font", "font": label, "glyph": gname}})
+        traces.append({"in": sd, "outs": outs, "meta": {"kind": "font", "font": label, "glyph": gname,
+                                                        "adv": adv.get(gname)}})
     # function-level rewritings on the desubroutinised programs
     des = after.get("desubroutinize")
     if des:
@@ -1073,12 +1080,17 @@ def judge_all(chk, traces, what):
                     continue
                 seen_keys.add(key)
                 chk.reject(key, "%s: %s %s%s" % (what, cl, json.dumps(t["meta"])[:300], extra),
-                           {"meta": t["meta"], "trace": s, "clause": cl})
+                           {"meta": t["meta"], "trace": s, "clause": cl, "scale": t.get("scale", 0)})
     chk.log("%s: %d traces judged in %.1fs, %d rejected" % (what, len(traces), time.time() - t0, nrej))
 
 
 WIDTH_OPS = {OPCODE[n] for n in ("hstem", "hstemhm", "vstem", "vstemhm", "cntrmask", "hintmask", "hmoveto", "vmoveto",
                                  "rmoveto", "endchar")}
+
+
+CURVE_END_OPS = {OPCODE[n] for n in ("rrcurveto", "rlinecurve", "hhcurveto", "vvcurveto", "hvcurveto", "vhcurveto")}
+CURVE_START_OPS = {OPCODE[n] for n in ("rrcurveto", "rcurveline", "hhcurveto", "vvcurveto", "hvcurveto", "vhcurveto")}
+HINT_OPS = {OPCODE[n] for n in ("hstem", "hstemhm", "vstem", "vstemhm", "cntrmask", "hintmask")}
 
 
 def blends_before_first_clear(tokens):
@@ -1125,6 +1137,36 @@ def root_cause(t, clause):
             sub_ops |= set(q) & WIDTH_OPS
         if not (set(o[1]) & WIDTH_OPS) and sub_ops == {OPCODE["endchar"]}:
             return "CFFToCFF2:width-kept-when-only-stack-clearing-operator-is-in-a-subroutine"
+        return None
+    # (4) remove_hints loses the endchar (and what only it would have consumed), and the original calls a subroutine
+    #     that is nothing but an endchar once its hint operators are dropped
+    if clause in ("remove_hints:Legal:no-endchar", "remove_hints:Legal:Arity:leftover"):
+        o = t["progs"][0]
+        for _i, q in list(o[2]) + list(o[4]):
+            ops = [x for x in q if OPBASE < x < MASKBASE]
+            if (q and q[-1] == OPCODE["endchar"] and set(ops) <= HINT_OPS | {OPCODE["endchar"]}
+                    and (len(q) == 1 or q[-2] >= OPBASE)):
+                return "remove_hints:endchar-lost-when-a-subroutine-is-only-endchar-after-dehinting"
+        return None
+    # (5) specializeCommands runs 1 or 2 operands over maxstack in an operator that ends with a curve and is
+    #     followed by another curve operator (the pair that could not be merged: stale stackUse after `continue`)
+    if re.fullmatch(r"(re)?specialize[-a-z0-9]*:Legal:StackLimit", clause):
+        o = _out(t, name)
+        if o is not None and not _raised(o):
+            toks, lim = t["progs"][o[1] - 1][1], o[3]
+            run, ops = 0, []          # (operator, operands in front of it), masks and their operators left out
+            for x in toks:
+                if x >= MASKBASE:
+                    continue
+                if x >= OPBASE:
+                    ops.append((x, run))
+                    run = 0
+                else:
+                    run += 1
+            over = [i for i, (_x, n) in enumerate(ops) if n > lim]
+            if over and all(ops[i][1] <= lim + 2 and ops[i][0] in CURVE_END_OPS and i + 1 < len(ops)
+                            and ops[i + 1][0] in CURVE_START_OPS for i in over):
+                return "specializeCommands:stale-stack-use-after-unmergeable-curve-pair"
         return None
     # (1) programToCommands reports a width on a CFF2 program with several blends in front of the first
     #     stack-clearing operator (observed on the program that was fed to the rewriting)
@@ -1191,6 +1233,12 @@ def run(chk):
             if rec["k"] == "small":
                 built_pool.append((enc_prog(p), rec["w"] >= 0, rec["w"]))
     n_all_mc = len(items)
+    # non-vacuity of (M): which operators, in how many of the exported specialised twins
+    hist = {}
+    for payload in gens:
+        for nm in set(OPNAMES[x - OPBASE - 1] for x in json.loads(payload[0])["s"] if OPBASE < x < MASKBASE):
+            hist[nm] = hist.get(nm, 0) + 1
+    chk.notes["mc_programs_using_operator"] = dict(sorted(hist.items()))
     budget = MC_REPLAY_THOROUGH if thorough else MC_REPLAY_QUICK
     if len(items) > budget:
         # a seeded sample of the exported programs is replayed (all run-structured ones always)
@@ -1353,7 +1401,9 @@ def run(chk):
         "CFF2 variation: blend is interpreted at the default location and at the location where one region alone has scalar 1 (affine in the scalars); rounding of blended values belongs to C14/C08",
         "T2CharStringPen is driven with roundTolerance=0 (coordinate rounding is a separate, documented lossy step)",
         "Canon = DESIGN.md C12 rules (1)-(4); preserveTopology, generalize, compile/decompile, desubroutinize, remove_hints, CFF->CFF2, recompile and cffsubr are judged with the strict form (lone moves only)",
-        "a corpus font on which a whole-font rewriting raises is skipped and listed (crash-freedom is not this property); on generated well-formed programs a raising rewriting is a violation (clause Raised)",
+        "a corpus font on which a whole-font rewriting raises is skipped and listed (crash-freedom is not this property); on generated well-formed programs and fonts, and for function-level rewritings of corpus charstrings, a raising rewriting is a violation (clause Raised)",
+        "specializeProgram(maxstack=m) is held to m operands (its contract: 'minding not to go over max stack size'); the format limits are the cases m = 48 (CFF) and m = 513 (CFF2)",
+        "a Type 2 rewriting of a charstring that ends with endchar must end with endchar too (TN5177: charstring form '... endchar'); CFF2 has none",
     ]
 
 
@@ -1376,6 +1426,65 @@ def has_width_prefix(p):
     return False, -1
 
 
+def from_tokens(toks, k):
+    """inverse of to_tokens (mask bytes are zero-filled: their content plays no role)"""
+    p = []
+    for i, x in enumerate(toks):
+        if x >= MASKBASE:
+            p.append(bytes(x - MASKBASE))
+        elif x >= OPBASE:
+            p.append(OPNAMES[x - OPBASE - 1])
+        elif i + 1 < len(toks) and OPBASE < toks[i + 1] < MASKBASE and OPNAMES[toks[i + 1] - OPBASE - 1] in RAW_BEFORE:
+            p.append(x)
+        else:
+            v = Fraction(x, 1 << k)
+            p.append(int(v) if v.denominator == 1 else float(v))
+    return p
+
+
+def rebuild_font(side, k, dw, nw, adv):
+    """a two-glyph CFF font (.notdef + the recorded glyph) with the recorded subroutines at their recorded
+    indices (the other slots hold a bare `return`): lets --replay re-run the whole-font rewritings of the
+    current tree on a glyph that came from a generated font"""
+    from fontTools.fontBuilder import FontBuilder
+    from fontTools.misc.psCharStrings import T2CharString
+    from fontTools.cffLib import SubrsIndex
+
+    prog = from_tokens(side[1], k)
+    lsub = [["return"] for _ in range(side[3])]
+    gsub = [["return"] for _ in range(side[5])]
+    for i, q in side[2]:
+        lsub[i] = from_tokens(q, k)
+    for i, q in side[4]:
+        gsub[i] = from_tokens(q, k)
+    sc = lambda v: (lambda f: int(f) if f.denominator == 1 else float(f))(Fraction(v, 1 << k))
+    dw, nw = sc(dw), sc(nw)
+    fb = FontBuilder(1000, isTTF=False)
+    fb.setupGlyphOrder([".notdef", "g"])
+    fb.setupCharacterMap({})
+    fb.setupCFF("C12Replay", {"FullName": "C12 Replay"},
+                {".notdef": T2CharString(program=["endchar"]), "g": T2CharString(program=prog)},
+                {"defaultWidthX": dw, "nominalWidthX": nw})
+    cff = fb.font["CFF "].cff
+    priv = cff.topDictIndex[0].Private
+    for q in gsub:
+        cff.GlobalSubrs.append(T2CharString(program=q, private=priv, globalSubrs=cff.GlobalSubrs))
+    if lsub:
+        priv.Subrs = SubrsIndex()
+        for q in lsub:
+            priv.Subrs.append(T2CharString(program=q, private=priv, globalSubrs=cff.GlobalSubrs))
+    fb.setupHorizontalMetrics({".notdef": (dw, 0), "g": (adv, 0)})
+    fb.setupHorizontalHeader(ascent=800, descent=-200)
+    fb.setupNameTable({"familyName": "C12Replay", "styleName": "Regular"})
+    fb.setupOS2()
+    fb.setupPost()
+    fb.font.recalcBBoxes = False
+    sides = [(".notdef", mk_side("cff", ["endchar"], {}, len(lsub), {}, len(gsub), (), 0, dw, nw))]
+    L, G = closure(prog, lsub, gsub)
+    sides.append(("g", mk_side("cff", prog, L, len(lsub), G, len(gsub), (), 0, dw, nw)))
+    return save_font(fb.font), sides
+
+
 def replay(chk, rep):
     """re-judge the recorded trace as recorded and, when the original program is stored,
     re-run the real rewritings of the current tree on it"""
@@ -1394,7 +1503,16 @@ def replay(chk, rep):
         for _key, data in fonts_:
             tr, _sk, _nt = _work_corpus((meta["font"], data, None, None, None))
             traces += [t for t in tr if t["meta"].get("glyph") == meta.get("glyph") and t["meta"].get("kind") == meta["kind"]]
+    elif meta.get("kind") == "built" and meta.get("adv") is not None and "scale" in r:
+        tr0 = r["trace"]
+        data, sides = rebuild_font(tr0["progs"][0], r["scale"], tr0["dw"], tr0["nw"], meta["adv"])
+        tr, _sk, _nt = font_traces(data, meta["font"], _rng_for(chk.seed, "replay"), func_sample=0, orig=sides)
+        tr = [t for t in tr if t["meta"].get("glyph") == "g"]
+        for t in tr:
+            t["meta"] = dict(meta, rebuilt=1)
+        traces += tr
     if not traces:
+        chk.log("re-judging the trace as recorded (the real code is NOT re-run for this kind of replay)")
         tr = dict(r["trace"])
         tr["meta"] = meta
         traces.append(tr)
